@@ -271,5 +271,37 @@ class UtilsStub:
     logger = NoopLogger()
 
 
+def u_is_scc_edge():
+    """stDiGraph.is_scc_edge(u, v): True exactly when u and v are mapped to the same SCC of the condensation; ValueError exactly when (u, v) is no edge.
+    (That two nodes are in one SCC iff each reaches the other is networkx' condensation contract, A2; the bounded part compares with mutual reachability.)"""
+    ISEDGE = z3.Function("is_edge_of_G", INT, INT, BOOL)
+
+    def h(c, f):
+        class Edges:
+            def __contains__(self, e): return core.ctx().decide(ISEDGE(lift(e[0]), lift(e[1])), "is-edge")
+
+        class Mapping:
+            def __getitem__(self, x): return Sym(MAP(lift(x)))
+
+        class Cond:
+            graph = {"mapping": Mapping()}
+
+        class Me(Tracked):
+            pass
+        me = Me()
+        me._condensation = Cond()
+        me.edges = lambda: Edges()
+        u, v = c.fresh_const("u", INT), c.fresh_const("v", INT)
+        try:
+            r = f(me, Sym(u), Sym(v))
+        except ValueError:
+            c.prove("xpost:ValueError-only-for-a-pair-that-is-no-edge", z3.Not(ISEDGE(u, v)), prop=P, kind="xpost")
+            return
+        c.prove("post:normal-return-only-for-an-edge", ISEDGE(u, v), prop=P)
+        c.prove("post:True-exactly-when-both-endpoints-lie-in-the-same-SCC", lift(r) == (MAP(u) == MAP(v)), prop=P)
+    return Unit("flowpaths/stdigraph.py", "stDiGraph.is_scc_edge", h, globs=dict(utils=UtilsStub), props=[P],
+                assumptions=["A2 networkx: C.graph['mapping'] sends two nodes to the same condensation node iff they are strongly connected"])
+
+
 def all_units():
-    return [u_reachable_nodes_from(), u_reach_cache("forward"), u_reach_cache("backward")]
+    return [u_reachable_nodes_from(), u_reach_cache("forward"), u_reach_cache("backward"), u_is_scc_edge()]
